@@ -26,10 +26,3 @@ Lemma stable_FLAC : forall fname header trailer,
 Proof.
   open_named; destruct Hfam as [Hsw|Hsw]; each_ext Hin Hew Hsw.
 Qed.
-
-Lemma stable_AAC : forall fname header trailer,
-  named_as C_AAC fname -> family C_AAC header trailer -> no_foreign_marker C_AAC header = true ->
-  picks C_AAC fname header trailer.
-Proof.
-  open_named; intro Hnfm; marker_facts Hnfm; destruct Hfam as [Hsw Hape]; destruct Hsw as [Hsw|[Hsw|[Hsw|[Hsw|Hsw]]]]; each_ext Hin Hew Hsw.
-Qed.
